@@ -459,10 +459,55 @@ func c08Unknown(r *rng, s *pgSchema) []byte {
 	return b
 }
 
+// A copy of s with 1..3 fields deleted (the messages and the remaining *pgField are shared with s).  A deleted field's
+// records are unknown fields for the converter, at whatever depth its message occurs.  Numbers that some repeated / map
+// field of the schema uses are never deleted: an unknown record with such a number right after a nested message is
+// swallowed by the loop overrun (finding 805), which the checker's selector only sees for declared fields.
+func c08Reduce(r *rng, s *pgSchema) *pgSchema {
+	loopNums := map[int32]bool{}
+	for _, m := range s.Msgs {
+		for _, f := range m.Fields {
+			if f.Label != pgSingular {
+				loopNums[f.Num] = true
+			}
+		}
+	}
+	type cand struct {
+		m *pgMsg
+		f *pgField
+	}
+	var cands []cand
+	for _, m := range s.Msgs {
+		for _, f := range m.Fields {
+			if !loopNums[f.Num] {
+				cands = append(cands, cand{m, f})
+			}
+		}
+	}
+	if len(cands) == 0 {
+		return nil
+	}
+	drop := map[*pgField]bool{}
+	for k := 1 + r.intn(3); k > 0; k-- {
+		drop[cands[r.intn(len(cands))].f] = true
+	}
+	red := &pgSchema{Pkg: s.Pkg, Enums: s.Enums, Root: s.Root, Opts: s.Opts}
+	for _, m := range s.Msgs {
+		nm := &pgMsg{Name: m.Name}
+		for _, f := range m.Fields {
+			if !drop[f] {
+				nm.Fields = append(nm.Fields, f)
+			}
+		}
+		red.Msgs = append(red.Msgs, nm)
+	}
+	return red
+}
+
 // ---- generator --------------------------------------------------------------------------------------------
 
 type c08Stats struct {
-	schemas, compileErr, encodeErr, cases, child, hung, unknown, nonfinite, i64s, dis, unpackedFields, sweep int
+	schemas, compileErr, encodeErr, cases, child, hung, unknown, nonfinite, i64s, dis, unpackedFields, sweep, reduced, reducedSchemas int
 	bytes                                                                                                int
 }
 
@@ -497,7 +542,23 @@ func c08HasNonFinite(v *pgVal) bool {
 	return false
 }
 
-func c08One(r *rng, st *c08Stats, c *pgCompiled, schemaFields []string, unpacked map[*pgField]bool, v *pgVal, unknown []byte, i64s, dis bool) {
+// what one conversion needs: the full schema (reference encoder), and the schema the CONVERTER is given - the same one,
+// or a reduced one (some fields deleted from the .proto text), which makes the deleted fields unknown fields at every
+// nesting level
+type c08Target struct {
+	enc      *pgCompiled           // full schema: value generation and reference encoding
+	dyn      *proto.TypeDescriptor // dynamicgo descriptor p2j converts with
+	text     string                // .proto text of dyn (for the child process)
+	sf       []string              // case fields of the schema of dyn
+	unpacked map[*pgField]bool
+	reduced  bool
+}
+
+func c08One(r *rng, st *c08Stats, t *c08Target, v *pgVal, unknown []byte, i64s, dis bool) {
+	c, schemaFields, unpacked := t.enc, t.sf, t.unpacked
+	if t.reduced {
+		st.reduced++
+	}
 	b, err := c.encodeRef(v, c.S.Root)
 	if err != nil {
 		st.encodeErr++
@@ -515,13 +576,13 @@ func c08One(r *rng, st *c08Stats, c *pgCompiled, schemaFields []string, unpacked
 	var res c08Result
 	if c08OverrunMsg(v, 0, unpacked, false) {
 		st.child++
-		res, err = c08ConvertInChild(c.Text, b, i64s, dis, pre)
+		res, err = c08ConvertInChild(t.text, b, i64s, dis, pre)
 		if err != nil {
 			die("C08: %v", err)
 		}
 	} else {
 		var hung bool
-		res, hung = c08Convert(c.Dyn, b, o, pre)
+		res, hung = c08Convert(t.dyn, b, o, pre)
 		if hung {
 			// the conversion goroutine cannot be stopped: report the case and leave
 			st.hung++
@@ -678,15 +739,15 @@ func genC08Sweep(r *rng, st *c08Stats, budget int) {
 			break
 		}
 		i64s := i%2 == 1
-		c08One(r, st, c, sf, unpacked, v, nil, i64s, false)
+		c08One(r, st, &c08Target{enc: c, dyn: c.Dyn, text: c.Text, sf: sf, unpacked: unpacked}, v, nil, i64s, false)
 		st.sweep++
 	}
 }
 
 func genC08(r *rng, n int) {
 	st := &c08Stats{}
-	// the systematic sweep takes at most a third of the budget (all of it fits from n = 1500 on)
-	genC08Sweep(r.fork(), st, n/3)
+	// the systematic sweep (about 830 cases) takes at most half of the budget
+	genC08Sweep(r.fork(), st, n/2)
 	optsPool := []pgOpts{{MaxMsgs: 4, MaxFields: 8, MaxDepth: 3}, {MaxMsgs: 3, MaxFields: 6, MaxDepth: 4}, {MaxMsgs: 5, MaxFields: 10, MaxDepth: 2}, {MaxMsgs: 2, MaxFields: 5, MaxDepth: 5}}
 	for st.cases < n {
 		s := genProtoSchema(r.fork(), optsPool[r.intn(len(optsPool))])
@@ -708,12 +769,21 @@ func genC08(r *rng, n int) {
 			continue
 		}
 		st.schemas++
-		sf := c08SchemaFields(s, unpacked)
+		tgt := &c08Target{enc: c, dyn: c.Dyn, text: c.Text, sf: c08SchemaFields(s, unpacked), unpacked: unpacked}
+		if r.chance(30) {
+			if red := c08Reduce(r, s); red != nil {
+				text := c08Text(red, unpacked)
+				if dyn, err := c08DynDesc(text); err == nil {
+					tgt.dyn, tgt.text, tgt.sf, tgt.reduced = dyn, text, c08SchemaFields(red, unpacked), true
+					st.reducedSchemas++
+				}
+			}
+		}
 		per := 4 + r.intn(8)
 		for i := 0; i < per && st.cases < n; i++ {
 			v := genProtoValue(r.fork(), c, s.Root, 0)
 			c08Mutate(r, v, []int{0, 15, 40, 80}[r.intn(4)])
-			extremes := r.intn(4)
+			extremes := r.intn(3)
 			c08CapExtremes(r, v, &extremes)
 			var unknown []byte
 			if r.chance(25) {
@@ -721,9 +791,10 @@ func genC08(r *rng, n int) {
 			}
 			i64s := r.chance(40)
 			dis := r.chance(30)
-			c08One(r, st, c, sf, unpacked, v, unknown, i64s, dis)
+			c08One(r, st, tgt, v, unknown, i64s, dis)
 		}
 	}
+	fmt.Fprintf(os.Stderr, "C08: reducedSchemas=%d reducedCases=%d\n", st.reducedSchemas, st.reduced)
 	fmt.Fprintf(os.Stderr, "C08: cases=%d sweep=%d schemas=%d compileErr=%d encodeErr=%d child=%d hung=%d unknown=%d nonfinite=%d int642string=%d disallow=%d unpackedFields=%d avgBytes=%d\n",
 		st.cases, st.sweep, st.schemas, st.compileErr, st.encodeErr, st.child, st.hung, st.unknown, st.nonfinite, st.i64s, st.dis, st.unpackedFields, st.bytes/(st.cases+1))
 }
